@@ -1,3 +1,4 @@
+import Amqp.Gen.Locks
 import Amqp.Model.Transport
 import Amqp.Lemmas.Errors
 import Amqp.Gen.Skel
@@ -805,5 +806,40 @@ example : (run { c := c2 } [.enterWait (some 0) 0 false, .adv 1]) = none := by d
 example : (run { c := c2 } [.enterWait (some 0) 1 false true, .poll 0, .die, .readerNotices, .leave 0]) = none := by decide
 example : (run { c := c2 } [.enterWait (some 0) 0 false false, .poll 0, .die, .readerNotices, .leave 0]).isSome = true := by decide
 example : (run { c := c2 } [.die, .adv 1]) = none := by decide
+
+/-! ## Lock structure (regenerated from the source: `Gen/Locks.lean`)
+
+"Never an indefinite block" also needs that no thread waits for a lock for ever.  The lock graph of the
+library - which lock may be taken, directly or through calls, while which is held - is recomputed from
+the source on every run.  (The tear-down performed by a raising error check is not followed by the
+extractor; that it ends is what the transition systems of this file, C08 and C11 are about.) -/
+
+/-- rank of each lock: a thread only ever takes locks of strictly lower rank than the ones it holds -/
+def lockRank : List (String × Nat) :=
+  [("Connection.lock", 5), ("Channel.lock", 4), ("Rpc.lock", 3), ("IO._wr_lock", 2), ("IO._rd_lock", 1), ("Heartbeat._lock", 0)]
+
+/-- **The lock order is acyclic**: every lock-order edge of the library goes down in rank, except the
+    re-entrant connection lock being taken again by its holder.  So no set of threads can wait for each
+    other's locks in a cycle. -/
+theorem lock_order_ranked :
+    Gen.Locks.edges.all (fun e =>
+      (e.1 == "Connection.lock" && e.2 == "Connection.lock") ||
+      (match lockRank.lookup e.1, lockRank.lookup e.2 with
+       | some a, some b => decide (b < a)
+       | _, _ => false)) = true := by decide
+
+/-- every lock of the library has a rank (a new lock object breaks this obligation) -/
+theorem every_lock_ranked : Gen.Locks.locks.all (fun l => (lockRank.lookup l).isSome) = true := by decide
+
+/-- **The reader never needs a lock a waiting caller holds**: a caller blocked in an RPC wait or in the
+    connection-state wait may hold the connection, channel and RPC locks; the reader thread - whose
+    progress ends that wait or records the failure - takes none of them. -/
+theorem reader_never_needs_a_waiting_callers_lock :
+    Gen.Locks.readerAcquires.all (fun l => !Gen.Locks.heldWhileWaitingForReader.contains l) = true := by decide
+
+/-- likewise the heartbeat timer thread, which declares a dead peer (C12): it is never held up by a caller
+    that waits for the broker -/
+theorem timer_never_needs_a_waiting_callers_lock :
+    Gen.Locks.timerAcquires.all (fun l => !Gen.Locks.heldWhileWaitingForReader.contains l) = true := by decide
 
 end Amqp.C06
